@@ -1665,3 +1665,21 @@ impl Uiua {
         })
     }
 }
+
+#[cfg(feature = "verif_hooks")]
+impl Uiua {
+    /// Sizes of the hidden stacks:
+    /// [stack, under, call, local, recur, fill, unfill, fill_boundary]
+    pub fn verif_depths(&self) -> [usize; 8] {
+        [
+            self.rt.stack.len(),
+            self.rt.under_stack.len(),
+            self.rt.call_stack.len(),
+            self.rt.local_stack.len(),
+            self.rt.recur_stack.len(),
+            self.rt.fill_stack.len(),
+            self.rt.unfill_stack.len(),
+            self.rt.fill_boundary_stack.len(),
+        ]
+    }
+}
